@@ -7,7 +7,7 @@ from ..kinds import FuncKinds, method_param_seed, ROLE_DOMS
 from .control import loc
 
 IDX_SCOPE = ("skglm.solvers", "skglm.penalties", "skglm.datafits", "skglm.utils.sparse_ops",
-             "skglm.utils.prox_funcs", "skglm.experimental")
+             "skglm.utils.prox_funcs", "skglm.experimental", "skglm.utils.data")
 
 
 def all_kinds(A):
@@ -61,7 +61,7 @@ def r_idx(A, ctx, scope, rule="R-IDX", select=None):
     ctx.extra["subscripts"] = n_sub
     ctx.extra["typed_subscripts"] = n_typed
     ctx.floor(rule + "/typed-subscripts", n_typed, scope.get("floor_typed", 150))
-    ctx.floor(rule, len(kinds), scope.get("floor", 150))
+    ctx.floor(rule, len([f for f in kinds if not select or select(f)]), scope.get("floor", 150))
 
 
 def _return_dom(A, m):
